@@ -45,5 +45,8 @@ package tls
 //@   loop 1: invariant len(extensions) == loopiter
 //@   loop 1: invariant [own-arrays] disjoint(extensions, m.cipherSuites)
 //@   loop 1: invariant [suites-kept] forall k int :: 0 <= k && k < len(m.cipherSuites) ==> m.cipherSuites[k] == uint16(old(data[41+int(data[38])+2*k]))<<8 | uint16(old(data[42+int(data[38])+2*k]))
+//@   loop 4: invariant [curves-len] len(m.supportedCurves) == numCurves
+//@   loop 4: invariant [curves-cursor] suffixof(d, now.data) && len(d) == len(now.data) - 2 - 2*i
+//@   loop 4: invariant [curves-so-far] forall k int :: 0 <= k && k < i ==> m.supportedCurves[k] == CurveID(now.data[2+2*k])<<8 | CurveID(now.data[3+2*k])
 //@   ensures [suites] result ==> (forall k int :: 0 <= k && k < len(m.cipherSuites) ==> m.cipherSuites[k] == uint16(old(data[41+int(data[38])+2*k]))<<8 | uint16(old(data[42+int(data[38])+2*k])))
 //@   ensures [suites-count] result ==> len(m.cipherSuites) == (int(old(data[39+int(data[38])]))<<8 | int(old(data[40+int(data[38])]))) / 2
